@@ -21,3 +21,76 @@ Theorem minimal_nonempty : forall {A} (less : A -> A -> bool) (l : list A),
   l <> [] -> minimal less l <> [].
 Proof. exact @minimal_nonempty. Qed.
 Print Assumptions minimal_nonempty.
+
+(* The order on queued operations (priority ascending, expected duration
+   descending, queued time ascending) is a strict partial order, so every
+   non-empty operation queue has a root and the root is minimal. *)
+Theorem ops_less_irrefl : forall s a, ops_less s a a = false.
+Proof. exact ops_less_irrefl. Qed.
+Print Assumptions ops_less_irrefl.
+
+Theorem ops_less_trans : forall s a b c, ops_less s a b = true -> ops_less s b c = true -> ops_less s a c = true.
+Proof. exact ops_less_trans. Qed.
+Print Assumptions ops_less_trans.
+
+Theorem min_op_some : forall s l, l <> [] -> exists o, min_op s l = Some o.
+Proof. exact min_op_some. Qed.
+Print Assumptions min_op_some.
+
+Theorem min_op_minimal : forall s l o, min_op s l = Some o ->
+  In o l /\ forall o', In o' l -> ops_less s o' o = false.
+Proof. exact min_op_minimal. Qed.
+Print Assumptions min_op_minimal.
+
+(* pick_minimal.  [policy s i lastkeys limits sticky retained (t, retained')]
+   (ProofsPolicy.v) is the documented policy as a relation over sets: at
+   invocation i, if operations are queued directly in i the outcome is the task
+   of an ops_less-minimal one; otherwise pick a qchildren_less-minimal queued
+   child [best], let [descend] decide between [best] and the worker's sticky
+   child at this level, and continue there.  Every outcome the model's search
+   admits lies in the policy ... *)
+Theorem pick_minimal : forall fuel s i lk lim st r res,
+  In res (next_candidates fuel s i lk lim st r) -> policy s i lk lim st r res.
+Proof. exact next_candidates_policy. Qed.
+Print Assumptions pick_minimal.
+
+(* ... and so does what assignNextQueuedTask hands to the worker (hints only
+   select among admissible candidates). *)
+Theorem assign_next_in_policy : forall w s,
+  snd (assign_next_queued_task w s) = true ->
+  exists t retained,
+    policy s (mkI (w_sk w) []) (k_last (get_worker s w)) (limits_of s (w_sk w)) (k_sticky (get_worker s w)) 0 (t, retained)
+    /\ assign_next_queued_task w s = (assign_queued w t retained s, true).
+Proof. exact assign_next_in_policy. Qed.
+Print Assumptions assign_next_in_policy.
+
+(* What [descend] does: it continues in the minimal child, unless the worker's
+   last invocation at this level is queued and preferred over it with the
+   stickiness window (now < start + limit of this level) as tie-break ... *)
+Theorem descend_cases : forall s i lk lim st r best next lk' lim' st' r',
+  descend s i lk lim st r best = (next, lk', lim', st', r') ->
+  (next = best /\ ((lk' = lk /\ lim' = lim /\ st' = st /\ r' = r) \/ (lk' = None /\ lim' = lim /\ st' = st /\ r' = r)
+                   \/ (exists k0 krest lim0, lk = Some (k0 :: krest) /\ lim = lim0 :: lim' /\ lk' = Some krest /\ st' = tl st /\ r' = S r
+                       /\ best = mkI (i_sk i) (i_path i ++ [k0]))))
+  \/ (exists k0 krest lim0, lk = Some (k0 :: krest) /\ lim = lim0 :: lim' /\
+        next = mkI (i_sk i) (i_path i ++ [k0]) /\ lk' = Some krest /\ st' = tl st /\ r' = S r /\
+        is_queued s next = true /\ is_preferred s next best (s_now s <? hd 0 st + lim0) = true).
+Proof. exact descend_cases. Qed.
+Print Assumptions descend_cases.
+
+(* ... and being preferred over a minimal child means: equal scores and an open
+   window (stickiness can only turn a tie). *)
+Theorem sticky_only_breaks_ties : forall s i best isticky tie,
+  (forall c, In c (queued_children s i) -> qchildren_less s c best = false) ->
+  In isticky (queued_children s i) ->
+  is_preferred s isticky best tie = true ->
+  tie = true /\
+  score_cmp (Z.of_nat (List.length (v_exec (get_inv s isticky))) + 1) (v_first (get_inv s isticky))
+            (Z.of_nat (List.length (v_exec (get_inv s best))) + 1) (v_first (get_inv s best)) = Eq.
+Proof. exact sticky_only_breaks_ties. Qed.
+Print Assumptions sticky_only_breaks_ties.
+
+(* NOT PROVED (see docs/areas/Sched-proofs.md):
+   Theorem no_queued_while_parked : forall cfg t0 evs, fresh_calls [] evs ->
+     c04_dump (observe (fst (run (init cfg t0) evs))) = "".
+   Theorem qchildren_less_trans (transitivity of the exact score comparison). *)
